@@ -207,6 +207,9 @@ func genBatch(o *emitter, u *Universe, present []int, size int, parallel bool, h
 			ops = append(ops, op{k: k})
 		} else {
 			v := make([]byte, 1+r.Intn(6))
+			if r.Intn(8) == 0 {
+				v = make([]byte, 32) // digest-sized values (a value may itself be a hash)
+			}
 			r.Read(v)
 			ops = append(ops, op{k: k, val: v})
 		}
